@@ -17,7 +17,8 @@ RULE = ("source trees of 1-5 paths (nested directories, 9 selected and 6 other e
         "theorems; one dedicated sub-stream per suspected defect shape (hash comment that is blank / glued to "
         "its keyword / one character before the keyword, star in the message, block comment unterminated at "
         "end of file, single-quoted strings, non-Java escapes, a directory named like a source file); "
-        "non-trivial = a selected file holds at least one TODO/FIXME comment; distinct = distinct input")
+        "non-trivial = a selected file holds at least one TODO/FIXME comment; distinct = distinct input"
+        '; every other tree is scanned as DIR/.; every third tree is observed through two executions of the `todo` command in one process (a decoy run with another extension list first; coca_reporter/simple-todos.json of the second run)')
 TRUSTED_BASE = ["modelled, not verified: the ANTLR runtime (longest match, rule order, error recovery that drops "
                 "the scanned text and the offending character), reduced to the rules that can contain / # or a quote; "
                 "Go regexp (hand-compiled scanner for the assignee expression, tied to its source text), "
